@@ -75,6 +75,9 @@ def case_strategy(tier):
         "dup": st.lists(st.fixed_dictionaries({"sym": st.integers(0, 2),
                                                "objs": st.lists(objs, min_size=2, max_size=4, unique=True)}), max_size=3),
         "ovf": st.lists(st.fixed_dictionaries({"o": objs, "kind": st.integers(0, 2), "sec": st.integers(0, 1)}), max_size=4),
+        # many duplicated symbols at once (two objects define the same N names): long diagnostics whose
+        # content must not depend on hash-map iteration or bucket scheduling
+        "dup_many": st.sampled_from([0, 0, 0, 5, 21, 40, 75]),
         "unterm": st.lists(objs, max_size=2, unique=True),
         "assert": st.sampled_from([0, 0, 0, 1, 2]),
         "warn_unresolved": st.sampled_from([False, False, True]),
@@ -138,6 +141,8 @@ def shape_case(c):
 
 def emit(case, d):
     n = case["nobj"]
+    if case.get("mode") not in ("mixed", "dup") or not case.get("dup"):
+        case = dict(case, dup_many=0)
     per = [{"undef": [], "dup": [], "ovf": [], "unterm": False} for _ in range(n)]
     for u in case["undef"]:
         per[u["o"] % n]["undef"].append(u)
@@ -199,6 +204,9 @@ def emit(case, d):
         L.append("  ret")
         for sym in sorted(set(p["dup"])):
             L.append(f".globl dup_{sym}\ndup_{sym}: ret")
+        if i < 2:
+            for k in range(case.get("dup_many", 0)):
+                L.append(f".globl mdup_{k}\nmdup_{k}: ret")
         asm("\n".join(L + tail) + "\n", f"o{i}.o", d)
     asm(".globl big_0, big_1, big_2\nbig_0 = 0x123456789a\nbig_1 = 0x223456789a\nbig_2 = 0x323456789a\n", "abs.o", d)
     files = ["main.o"] + [f"o{i}.o" for i in range(n)] + ["abs.o"]
